@@ -423,7 +423,7 @@ class ExprGen:
         ch = [("atom", 6)]
         if d < 3:
             ch += [("union", 4), ("alias", 2), ("paren", 1), ("nonnull", 1), ("exclude", 1), ("extract", 1), ("index-array", 1), ("index-tuple", 1),
-                   ("index-prop", 1), ("index-member", 2), ("intersection", 1), ("iface", 1)]
+                   ("index-prop", 1), ("index-member", 2), ("intersection", 1), ("iface", 2), ("objlit", 2)]
         k = r.wpick(ch)
         self.tg.used["ty:" + k] += 1
         if k == "atom":
@@ -440,8 +440,15 @@ class ExprGen:
             return n
         if k == "iface":
             n = self.tg.fresh("J")
-            self.tg.place("interface %s { %s }" % (n, r.pick(["a: 1", "(): void", "new (): Date", "a: 1; (): void"])))
+            self.tg.place("interface %s { %s }" % (n, r.pick(["a: 1", "(): void", "new (): Date", "a: 1; (): void", "", "[k: string]: number"])))
+            if r.chance(0.4):
+                # an interface whose members (all or some) are inherited
+                m = self.tg.fresh("J")
+                self.tg.place("interface %s extends %s { %s }" % (m, n, r.pick(["", "", "b: 2", "(): void"])))
+                return m
             return n
+        if k == "objlit":
+            return r.pick(["{}", "{ a: 1 }", "{ (): void }", "{ a?: string; b: number }", "{ new (): Date }", "{ [k: string]: number }"])
         if k == "nonnull":
             return "NonNullable<%s>" % self.expr(d + 1)
         if k == "exclude":
@@ -865,7 +872,7 @@ def extends_products(prop_side, tier):
     second = ("interface QBase { q: number }", "q") if prop_side else ("interface QBase { (e: 'q'): void }", "q")
     kinds = list(EXT_PARENT_KINDS)
     if not prop_side:
-        kinds.append(("alias-fn", lambda n, m: "type %s = (e: %s) => void;" % (n, " | ".join(x.split("'")[1].join("''") for x in m.split("; ")))))
+        kinds.append(("alias-fn", lambda n, m: "type %s = (e: %s) => void;" % (n, " | ".join("'%s'" % x.split("'")[1] for x in m.split("; ")))))
     uses = ["@", "alias", "@ & { %s }" % ("extra?: number" if prop_side else "(e: 'extra'): void")] + ([] if prop_side else ["@ | ((e: 'alt') => void)"])
     strip = lambda t: t.replace("export ", "")
     n = 0
@@ -906,4 +913,82 @@ def extends_products(prop_side, tier):
         else:
             m = "function make() {\n" + C + "\n" + U + "\n" + strip(P) + "\n}"
         out.append(("ext:%s|%s|%d|%d" % (kn, arr, ci, ui), "import { defineComponent } from 'vue';\nimport type { SetupContext } from 'vue';\n" + m + "\n"))
+    return out
+
+
+# ------------------------------------------------------------------------------------------------ C18: ONE prop declared under SEVERAL spellings
+# `label`, `'label'`, `['label']` are one prop for Vue and for the default matcher but separate declarations for the props type (they are merged by
+# spelling); they meet when declarations are combined: intersection, union, merged interfaces, extends, an alias in between.  x the spelling of the
+# key in the default object x the kind of default x the type of the prop.  (What Vue receives is the LAST entry of the emitted object.)
+C18_SPELL_TYPES = [
+    ("intersection", lambda a, b: ("", "{ %s } & { %s; 'aria-level'?: number }" % (a, b))),
+    ("union", lambda a, b: ("", "{ %s } | { %s; 'aria-level'?: number }" % (a, b))),
+    ("merged", lambda a, b: ("interface Props { %s }\ninterface Props { %s; 'aria-level'?: number }\n" % (a, b), "Props")),
+    ("extends", lambda a, b: ("interface PBase { %s }\ninterface Props extends PBase { %s; 'aria-level'?: number }\n" % (b, a), "Props")),
+    ("aliases", lambda a, b: ("type PA = { %s };\ntype PB = { %s; 'aria-level'?: number };\n" % (a, b), "PA & PB")),
+    ("three", lambda a, b: ("", "{ %s } & { %s } & { ['label']?: %s; 'aria-level'?: number }" % (a, b, "@T@"))),
+    ("partial", lambda a, b: ("interface PI { %s }\n" % a.replace("?", ""), "Partial<PI> & { %s; 'aria-level'?: number }" % b)),
+]
+C18_SPELL_DEFAULTS = [("literal", "label: 'untitled'"), ("quoted-key", "'label': 'untitled'"), ("computed-key", "['label']: 'untitled'"), ("factory", "label: makeLabel()"),
+                      ("shorthand", "label"), ("getter", "get label() { return makeLabel() }"), ("method", "label() { return 1 }"), ("undefined", "label: undefined"),
+                      ("arrow", "label: () => 'x'"), ("twice", "label: 'first', 'label': 'second'")]
+C18_SPELL_PROP_TYPES = ["string", "() => void", "boolean", "string | (() => string)"]
+
+
+def c18_spelling_products(tier):
+    out = []
+    pre = "import { defineComponent } from 'vue';\nconst label = 'l', makeLabel = () => 'm', noop = () => {};\n"
+    n = 0
+    for (tn, tf), (dn, dflt), (pi, pty), order in itertools.product(C18_SPELL_TYPES, C18_SPELL_DEFAULTS, enumerate(C18_SPELL_PROP_TYPES), (0, 1)):
+        n += 1
+        if tier == "quick" and pi and (n % 3):
+            continue
+        a, b = "label?: %s" % pty, "'label'?: %s" % pty
+        if order:
+            a, b = b, a
+        decls, ty = tf(a, b)
+        ty = ty.replace("@T@", pty)
+        call = "export const C%d = defineComponent((props: %s = { %s, 'aria-level': 2 }) => () => null);" % (n, ty, dflt)
+        body = decls + call
+        if n % 5 == 0:
+            body = "function scope() {\n" + body.replace("export ", "") + "\n}"
+        out.append(("sp:%s|%s|%d|%d" % (tn, dn, pi, order), pre + body + "\n"))
+    return out
+
+
+# ------------------------------------------------------------------------------------------------ C20: SEVERAL calls, nested or in sequence
+# which call gets the inferred name (and props / emits) when Vue's defineComponent calls are NESTED in each other's arguments (setup body, options
+# object, wrapper call, array, directly) or FOLLOW a declaration whose call cannot take a name (spread / non-function first argument, destructuring,
+# conditional, another function) - every call must be augmented for itself only
+# (inner calls are of shapes that receive NOTHING themselves - no typed props, no emits, not a declarator's initializer: Oracle.c20Call compares the other
+# arguments and the user's option entries of an augmented call literally, so an inner call that is legitimately augmented for itself would raise
+# `arguments-changed` / `options-changed` for the OUTER call; typed inner calls are therefore not in the stream)
+C20_INNER = ["() => () => null", "{ setup() {} }", "(p) => {}", "someObject", "() => {}, { inheritAttrs: false }", "function () { return () => null; }"]
+C20_NEST = ["(props: { id: number }) => { const inner = [defineComponent(@I)]; return () => null; }",
+            "(props: { id: number }) => () => h(defineComponent(@I))",
+            "(props: { id: number }) => () => null, { components: { Child: defineComponent(@I) } }",
+            "wrap(defineComponent(@I))",
+            "defineComponent(@I)",
+            "(props: { id: number }) => () => null, { ...defineComponent(@I) }",
+            "(props: { id: number }, ctx: SetupContext<{ (e: 'x'): void }>) => () => null, { mixins: [defineComponent(@I), defineComponent(() => {})] }",
+            "{ components: { Child: defineComponent(@I) }, setup() {} }"]
+C20_OUTER_DECL = ["const Page = CALL;", "let Page = CALL;", "export const Page = CALL;", "export default CALL;", "let Page; Page = CALL;", "CALL;", "var Page = CALL, Other = defineComponent(() => () => null);"]
+C20_FIRST_STMT = ["const Stub = defineComponent(...args);", "const Stub = defineComponent(someObject, ...rest);", "const Stub = defineComponent(someObject);",
+                  "const { x } = defineComponent((props: { a: string }) => {});", "const Stub = other((props: { a: string }) => {});",
+                  "const Stub = cond ? defineComponent((props: { a: string }) => {}) : null;", "const Stub = defineComponent((props: { a: string }) => {}, { name: 'Own' });"]
+C20_LATER_STMT = ["export default defineComponent((props: { msg: string }) => () => null);", "let Later; Later = defineComponent((props: { msg: string }) => () => null);",
+                  "defineComponent((props: { msg: string }) => () => null);", "register(defineComponent((props: { msg: string }) => () => null));",
+                  "const Named = defineComponent((props: { msg: string }) => () => null);"]
+
+
+def c20_nesting_products(tier):
+    out = []
+    head = ("import { defineComponent, h } from 'vue';\nimport type { SetupContext } from 'vue';\n"
+            "const someObject = {}, args = [], rest = [], cond = true, wrap = (x: any) => x, other = (x: any) => x, register = (x: any) => x;\n")
+    for (ni, nest), (ii, inner), (di, decl) in itertools.product(enumerate(C20_NEST), enumerate(C20_INNER), enumerate(C20_OUTER_DECL)):
+        call = "defineComponent(%s)" % nest.replace("@I", inner)
+        out.append(("nest:%d|%d|%d" % (ni, ii, di), head + decl.replace("CALL", call) + "\n"))
+    for (fi, first), (li, later) in itertools.product(enumerate(C20_FIRST_STMT), enumerate(C20_LATER_STMT)):
+        out.append(("seq:%d|%d" % (fi, li), head + first + "\n" + later + "\n"))
+        out.append(("seqfn:%d|%d" % (fi, li), head + "function scope() {\n" + first + "\n" + later.replace("export default ", "return ") + "\n}\n"))
     return out
